@@ -114,3 +114,53 @@ def render_prog(p, macros_last=False):
     if macros_last:
         out += mac
     return '\n'.join(out) + '\n'
+
+
+# ---------------------------------------------------------------------------------------------
+# AST -> S-expression for jaqalpaq.core.circuitbuilder.build (the builder route)
+
+def s_ix(x):
+    k = x['k']
+    if k == 'num':
+        return int(x['v']) if x['t'] == 'int' else float(x['v'])
+    if k == 'none':
+        return None
+    return x['v']
+
+
+def s_arg(a):
+    if a['k'] == 'qubit':
+        return ('array_item', a['base']['v'], s_ix(a['idx']))
+    return s_ix(a)
+
+
+def s_stmt(s):
+    if s['k'] == 'gate':
+        return ['gate', s['v']] + [s_arg(a) for a in s['args']]
+    if s['k'] == 'loop':
+        return ['loop', s_ix(s['count']), s_stmt(s['body'])]
+    if s['sub']:
+        return ['subcircuit_block', s_ix(s['iters'])] + [s_stmt(x) for x in s['body']]
+    return ['parallel_block' if s['par'] else 'sequential_block'] + [s_stmt(x) for x in s['body']]
+
+
+def sexpr_prog(p):
+    out = ['circuit']
+    for m in p['imports']:
+        out.append(['usepulses', m, '*'])
+    for l in p['lets']:
+        out.append(['let', l['v'], s_ix(l['val'])])
+    for r in p['regs']:
+        if r['k'] == 'reg':
+            out.append(['register', r['v'], s_ix(r['size'])])
+        elif r['mode'] == 'whole':
+            out.append(['map', r['v'], r['src']])
+        elif r['mode'] == 'index':
+            out.append(['map', r['v'], r['src'], s_ix(r['idx'])])
+        else:
+            out.append(['map', r['v'], r['src'], s_ix(r['start']), s_ix(r['stop']), s_ix(r['step'])])
+    for m in p['macros']:
+        out.append(['macro', m['v']] + list(m['params']) + [s_stmt(m['body'])])
+    for s in p['body']:
+        out.append(s_stmt(s))
+    return out
